@@ -1064,3 +1064,54 @@ def r01_13_days_since_epoch_uses_hooks(ctx: Ctx) -> RuleResult:
                 else:
                     rr.fail(f.qual, f"{key}[{label}] month {m} day {day}: day number is year start {got - S:+d}, but the calculator's month offset is {off} (+ {day - 1} days): date -> day number disagrees with day number -> date", ctx.loc(f))
     return rr
+
+
+# ------------------------------------------------------------------------------------------- R01.12 era calculator pairing
+
+
+@rule("C01")
+def r01_12_era_calculator_pairing(ctx: Ctx) -> RuleResult:
+    """A calendar's era calculator converts (era, year-of-era) <-> absolute year with the year bounds of the year-month-day
+    calculator it was built over.  Every CalendarSystem construction that passes both must pass an era calculator built over the
+    SAME year-month-day calculator expression (or both borrowed from the same calendar), otherwise the era API reports years the
+    calendar does not have (Julian with ISO's bounds: year-of-era 9999 -> absolute 9999 > max_year 9998)."""
+    from ..kit import inline_locals
+
+    rr = RuleResult("R01.12", "every calendar is constructed with an era calculator built over its own year-month-day calculator (or both taken from the same existing calendar)", min_instances=3)
+    M = ctx.M
+    for f in sorted(set(M.func_of_node.values()), key=lambda x: x.qual):
+        if isinstance(f.node, ast.Lambda) or not f.mod.rel.endswith("_calendar_system.py"):
+            continue
+        for n in own_nodes(f.node):
+            if not (isinstance(n, ast.Call) and unparse(n.func).endswith("__ctor")):
+                continue
+            kw = {k.arg: k.value for k in n.keywords}
+            if "year_month_day_calculator" not in kw or "era_calculator" not in kw:
+                continue
+            rr.inst()
+            y = inline_locals(f.node, kw["year_month_day_calculator"])
+            e = inline_locals(f.node, kw["era_calculator"])
+            ytxt, etxt = unparse(kw["year_month_day_calculator"]), unparse(kw["era_calculator"])
+            ok = False
+            why = ""
+            if isinstance(e, ast.Call) and e.args:
+                # built here: _GJEraCalculator(<calc>) / _SingleEraCalculator._ctor(era, <calc>): <calc> is the same local / expression
+                inner = [unparse(a) for a in e.args] + [unparse(k.value) for k in e.keywords]
+                raw_e = kw["era_calculator"]
+                if isinstance(raw_e, ast.Name):
+                    for s in own_nodes(f.node):
+                        if isinstance(s, ast.Assign) and any(isinstance(t, ast.Name) and t.id == raw_e.id for t in s.targets) and isinstance(s.value, ast.Call):
+                            inner = [unparse(a) for a in s.value.args] + [unparse(k.value) for k in s.value.keywords]
+                ok = ytxt in inner or unparse(y) in inner
+                why = f"era calculator built over {inner}, calendar uses {ytxt}"
+            elif isinstance(e, ast.Attribute) and isinstance(y, ast.Attribute):
+                # both borrowed: <cal>.__era_calculator with <cal>._year_month_day_calculator
+                ok = unparse(e.value) == unparse(y.value)
+                why = f"era calculator of `{unparse(e.value)}`, year-month-day calculator of `{unparse(y.value)}`"
+            else:
+                why = f"era calculator `{etxt}` is not built over `{ytxt}`"
+            if ok:
+                rr.ok({"calendar": unparse(kw.get("name")) if kw.get("name") is not None else "", "pairing": why})
+            else:
+                rr.fail(f.qual, f"calendar constructed with mismatched parts: {why}; the era API then uses another calendar's year bounds", ctx.loc(f, n))
+    return rr
